@@ -33,6 +33,7 @@ func init() {
 			{ID: "C10.R3", Min: 20, Desc: "no lock re-acquisition; acyclic lock order", Fn: c07Deadlock},
 			{ID: "C10.R4", Min: 4, Desc: "actor tree: a child is recorded in its parent before it can run (and die) — spawn order (C05.R2)", Fn: c05Spawn},
 			{ID: "C10.R6", Min: 8, Desc: "the future's result fields have a single writer: they are stored only under the won completion CAS (C04.R1)", Fn: c04OneShot},
+			{ID: "C10.R7", Min: 1, Desc: "every mutex acquisition is released on every path (C07.R9)", Fn: lockPairing},
 			{ID: "C10.R5", Min: 4, Desc: "the future's result is read only after a receive on done (C04.R2 safe publication)", Fn: c04Publication},
 		},
 	})
